@@ -320,6 +320,11 @@ pub fn judge_c15(cx: &DeliveryCtx, out: &mut RunOut) {
         ValOut::Ok(r) => r,
         _ => return,
     };
+    // jurisdiction: requests that are rightly accepted (whether a request should have been
+    // accepted at all is for the other properties)
+    if *cx.expected != Verdict::Accept {
+        return;
+    }
     out.probe("accepted_compared");
     let submitted = match cx.wire.to_request() {
         Ok(r) => r,
